@@ -178,6 +178,11 @@ def r5(ctx, F, rule, sfx):
         raise AnalysisIncomplete('face-less decomposition bodies: load %d, next %d, new %d' % (len(load), len(nxt), len(new)))
     load, nxt, new = load[0], nxt[0], new[0]
     no = ['geometry::Plane::project_onto', 'geometry::Plane::project_onto_intersection']
+    adt = F.adt_by_path.get('voronoi::convex_cell::DecompositionWithoutFaces')
+    layout = sorted((f['name'], f['ty'].replace(' ', '')) for f in adt['variants'][0]['fields']) if adt else None
+    if layout != [('cur_tet_idx', 'usize'), ('cur_vertex', 'voronoi::convex_cell::Vertex'), ('cur_vertex_idx', 'usize'), ('projections', '[glam::DVec3;6]')]:
+        # another private layout of the iterator state: follow the iterator from its constructor instead of seeding a symbolic state
+        return r5_sequential(ctx, F, rule, sfx, new, nxt, no)
     cell = I.Sym(nf.sym_atom('cell'), 'voronoi::convex_cell::ConvexCell<M>')
     DW = 'voronoi::convex_cell::DecompositionWithoutFaces'
 
@@ -369,3 +374,52 @@ def r6(ctx, F, rule, sfx):
             op, a, b = leaf.args
             return op in ('>=', '<=') and not (op == '<')
         return True
+
+
+def r5_sequential(ctx, F, rule, sfx, new, nxt, no):
+    """Layout-independent form of R5: run new(cell) and then next() repeatedly on the state it returns (abstractly, the cell
+    symbolic) and read the tetrahedra off: the first six belong to vertices[0], the seventh to vertices[1]."""
+    import re
+    cell = I.Sym(nf.sym_atom('cell'), 'voronoi::convex_cell::ConvexCell<M>')
+    ip = I.Interp(F, no_inline=no)
+    ip.unroll_limit = 8
+    st0, _ = ip.call_body(new, [ip.ref_to(cell)])
+    r = ip.ref_to(st0, mut=True)
+    wn = where(nxt)
+    PL = lambda v, k: 'cell.clipping_planes[cell.vertices[%d].dual[%d]].plane' % (v, k)
+
+    def want_point(v, i):
+        k = i // 2
+        if i % 2 == 0:
+            return 'call:geometry::Plane::project_onto(%s, cell.loc)' % PL(v, k)
+        return 'call:geometry::Plane::project_onto_intersection(%s, %s, cell.loc)' % (PL(v, (k + 1) % 3), PL(v, k))
+    for n in range(7):
+        v, _ = ip.call_body(nxt, [r, ip.ref_to(cell)])
+        ctx.evaluations += 1
+        vi, t = (0, n) if n < 6 else (1, 0)
+        some = None
+        for conds, leaf in cases(v):
+            if isinstance(leaf, I.St) and leaf.variant == 'Some':
+                some, cond = leaf.fields[0], conds
+        if some is None:
+            ctx.bad(rule, 'tetrahedron-%d%s' % (n, sfx), repr(v)[:120], 'a tetrahedron while vertices remain', wn, key_extra='tet:%d' % n)
+            return
+        label = repr(I.frozen(I.get_field(some, 'plane_idx')))
+        vs = [repr(I.frozen(I.get_index(I.get_field(some, 'vertices'), RF.const(i)))) for i in range(3)]
+        vs = [re.sub(r'^DVec3\{x: (.*)\.x, y: \1\.y, z: \1\.z\}$', r'\1', x) for x in vs]
+        want = [want_point(vi, t), want_point(vi, (t + 5) % 6), 'cell.vertices[%d].loc' % vi]
+        ok = label == 'cell.vertices[%d].dual[%d]' % (vi, t // 2) and vs == want
+        ctx.check(rule, 'tetrahedron-%d%s' % (n, sfx), ok, 'label %s, base %s' % (label[-30:], [x[-60:] for x in vs]),
+                  'vertex %d, label dual[%d], base (proj[%d], proj[%d], vertex) with proj[2i] the foot on plane dual[i], proj[2i+1] the foot on the line of planes dual[i+1], dual[i]' % (vi, t // 2, t, (t + 5) % 6), wn, key_extra='tet:%d' % n)
+        okc = [repr(c) for c in cond] == ['(%d < len(cell.vertices))' % vi]
+        ctx.check(rule, 'continues-while-vertices-remain-%d%s' % (n, sfx), okc, [repr(c) for c in cond], 'Some iff the vertex index is below vertices.len()', wn, key_extra='cond:%d' % n)
+
+        # continue on the arm on which a tetrahedron was returned (vertices remain)
+        def val(leaf):
+            t_ = repr(leaf)
+            if leaf.op == 'cmp' and 'len(cell.vertices)' in t_:
+                op, a, b = leaf.args
+                lhs_len = 'len(' in repr(a)
+                return {'<': not lhs_len, '<=': not lhs_len, '>': lhs_len, '>=': lhs_len}.get(op, False)
+            raise AnalysisIncomplete('iterator state depends on %s' % t_[:100])
+        I.write_lv(r.lv, dtab.evaluate(I.read_lv(r.lv), val))
